@@ -160,6 +160,7 @@ class C19(PropCheck):
         for u in (0, 1, 0x1809, 0x180F, 0xFEAA, 0xFFFF, 0x10000, -1, 0x1234):
             for n in (0, 1, 5):
                 out.append((f"svc {u} {hx(rnd_bytes(rng, n))}", "service-data-base"))
+            out.append((f"svc {u}", "service-data-base"))
         # ---- packets from the independent encoder ------------------------------------------
         jobs, meta = [], []   # meta: (block, extra ops after rx)
 
@@ -479,6 +480,14 @@ class C19(PropCheck):
         elif op == "batdec":
             if so != "none" and io != so:
                 return Finding(line, f"battery bytes {a[0]} hold {so}, the getter returns {io}", {"class": "battery"})
+        elif op == "svc":
+            u = int(a[0])
+            if 0 <= u < 65536:
+                data = "" if len(a) < 2 or a[1] == "-" else a[1]
+                want = f"{u.to_bytes(2, 'little').hex()}{data} {2 + len(data) // 2}"
+                if io != want:
+                    return Finding(line, f"ServiceData({u}){'' if len(a) > 1 else ' (fresh, no data assigned)'}: buffer / len() give `{io}`, "
+                                         f"the 16-bit UUID little-endian followed by the data is `{want}`", {"class": "service-data"})
         elif op == "urlinit":
             if io != "aafe10e7":
                 return Finding(line, f"a fresh UrlServiceData() starts with {io}: documented is the Eddystone UUID 0xFEAA, frame type "
